@@ -53,4 +53,20 @@ def mstall (c impl : List String) : Option Verdict := do
          nontrivial := decide (draws.length ≥ 4),
          note := if others != othersWant then "a wait chosen after the consumer had been slow is not a full [Min, Max] wait (the loop tries to catch up)" else "" }
 
+/-- `mfw ntog {at} nsol {at host} min max n draws… | n gaps…`: the loop inside a whole running advertiser
+    whose forwarding state is toggled and which answers unicast solicitations meanwhile: neither is a
+    (re)initialisation, so the gaps between the unsolicited multicast RAs are the waits of one run -/
+def mfw (c impl : List String) : Option Verdict := do
+  let (min, max, draws) ← P.run (do
+    let _ ← P.list P.int
+    let _ ← P.list (do let a ← P.int; let h ← P.nat; pure (a, h))
+    let mn ← P.int; let mx ← P.int; let ds ← P.list P.int; pure (mn, mx, ds)) c
+  let ws := waits draws min max 0
+  let implW ← P.run (P.list P.int) impl
+  pure { model := s!"{ws.length} {joinInts ws}".trimAsciiEnd.toString,
+         oracle := Spec.C05.holdsSeq min max 0 implW && implW.length == draws.length,
+         nontrivial := decide (min < max) && decide (draws.length ≥ 4),
+         note := if implW.length != draws.length then "the advertiser stopped requesting unsolicited multicast RAs"
+                 else if !(Spec.C05.holdsSeq min max 0 implW) then "a gap between consecutive unsolicited multicast RAs of one run is outside the property's bounds (initial cap only for the first three waits; [Min, Max] afterwards)" else "" }
+
 end Driver.C05
